@@ -63,6 +63,7 @@ HEAVY = {"pressure24", "pressure32", "pressure20c"}
 QUICK_EXTRA = {"arm": ["pressure20c"], "riscv": ["pressure12"], "riscv:rvc": ["pressure12"]}
 LEVELS = (0, 2)
 ASM = "asm:asm_basic"
+ASM_FAIL = "asm:asm_fail"
 
 
 def _worker_mod():
@@ -122,6 +123,8 @@ def expand(d):
             script += [[p, a if ch == "a" else b, lvl] for ch in d["pat"]]
     for tt in d["asm"]:
         script += [[ASM, tt, 0], [ASM, tt, 0]]
+        # an assembly that fails, then the good unit again: nothing of the failed run may reach the next object
+        script += [[ASM_FAIL, tt, 0], [ASM, tt, 0]]
     return script
 
 
@@ -338,6 +341,7 @@ def run(ctx):
 
     prog_rank = {p: i for i, p in enumerate(programs)}
     prog_rank[ASM] = len(programs)
+    prog_rank[ASM_FAIL] = len(programs) + 1
     cfg_rank = {c: i for i, c in enumerate(cfgs)}
     reftab = {}     # (unit, target, level) -> reference record
     refwhere = {}   # (unit, target, level) -> (shard, index) of the reference record
